@@ -230,11 +230,13 @@ def run(tier, seed, replay):
             lo = max(1, off)
             if f["rep_cost"] > 0:
                 nstar = off + max(0, (cap - f["pre_cost"] - f["tail_cost"]) // f["rep_cost"])
-                ns = sorted(set([lo, lo + 1, lo + 2, rng.randint(lo + 3, max(lo + 4, nstar - 3))] +
+                ns = sorted(set([lo, lo + 1, lo + 2, rng.randint(lo + 3, 12), rng.randint(13, max(14, nstar - 3))] +
                                 [max(lo, nstar + d) for d in (-2, -1, 0, 1, 2)] + [2 * nstar, 10 * nstar]))
             else:
-                # (trace logging makes the depth observer slow: long flat inputs are left to the search stream)
-                ns = [1, 2, 3, rng.randint(4, 1500), 3000]
+                # with the trace level on, parol's generated actions dump their whole item stack per production
+                # (quadratic in the length of a flat list): the depth OBSERVER sees flat lists up to 60 items
+                # (a list production that counted would already add 60*k), longer ones are parsed without it
+                ns = [1, 2, 3, rng.randint(4, 12), rng.randint(13, 3000), 50000]
             for n in ns:
                 plan.append((name, n))
         # model
@@ -261,7 +263,15 @@ def run(tier, seed, replay):
             table = G.NEST if name in G.NEST else G.FLAT
             wires.append(G.nest_case(name, n, table))
         # the depth observer (trace log) runs on the optimised build; the unoptimised one parses the same inputs
-        out_depth = run_cases(rel, "depth", wires, timeout_ms=240000, nshards=4 * C.NCPU)
+        # the OBSERVER (exact maximal production depth through parol's trace log) is used at small nesting only:
+        # with the trace level on, parol's generated actions dump their whole item stack at every production, which
+        # costs minutes on deep or long inputs.  Three exact depths pin the affine function pre + n*rep + tail; the
+        # boundary cases n*-2..n*+2, 2n*, 10n* are then plain parses (accept / MaxParsingDepthExceeded{cap+1}).
+        observe = [n <= 12 for (name, n) in plan]
+        od = run_cases(rel, "depth", [w for w, o in zip(wires, observe) if o], timeout_ms=240000, nshards=4 * C.NCPU)
+        op = run_cases(rel, "parse", [w for w, o in zip(wires, observe) if not o], timeout_ms=240000, nshards=C.NCPU)
+        od, op = iter(od), iter(op)
+        out_depth = [next(od) if o else next(op) for o in observe]
         out_rel = run_cases(dbg, "parse", wires, timeout_ms=240000, nshards=4 * C.NCPU)
         evaluations += 2 * len(wires)
         for (name, n), wire, ld, lr in zip(plan, wires, out_depth, out_rel):
@@ -280,7 +290,7 @@ def run(tier, seed, replay):
                 continue        # already a violation above
             if ia != bool(ma):
                 why = "model predicts %s, parser %s" % ("accept" if ma else "reject-by-depth", rd["raw"][:80])
-            elif ia and rd["maxdepth"] != md:
+            elif ia and rd["maxdepth"] is not None and rd["maxdepth"] != md:
                 why = "model predicts production depth %d, parser reached %d" % (md, rd["maxdepth"])
             elif not ia and (rd["kind"] != "Depth" or rd["depth"] != cap + 1):
                 why = "model predicts MaxParsingDepthExceeded{%d}, parser returned %s" % (cap + 1, rd["raw"][:80])
